@@ -178,7 +178,7 @@ func runCrash(a []string) {
 			cases[len(cases)-1].ops = append(cases[len(cases)-1].ops, line)
 		}
 	}
-	const probeKeys = "-,61,62,6100,6b"
+	const probeKeys = "-,=,61,62,6100,6b"
 	for _, c := range cases {
 		dir := filepath.Join(root, "run")
 		os.RemoveAll(dir)
